@@ -372,6 +372,15 @@ func (g *Gen) RequestOf(c int, forceKind string) *wire.Req {
 				a = &wire.Action{Eid: g.lastAct.Eid, Name: g.lastAct.Name, Data: g.smallBytes(),
 					Ts: &wire.Ts{Secs: g.lastAct.Ts.Secs, Nanos: nanosPool[g.rnd.Intn(len(nanosPool))]}}
 			}
+			if g.lastAct != nil && g.lastAct.Ts != nil && g.rnd.Intn(6) == 0 && g.lastAct.Ts.Secs > -1000 && g.lastAct.Ts.Secs < 1<<40 {
+				// ... or a timestamp that is not normalised: the next second minus one and a half (older than the last one,
+				// whatever the order of the fields says), the previous second plus two (newer)
+				ts := &wire.Ts{Secs: g.lastAct.Ts.Secs + 1, Nanos: -1500000000}
+				if g.rnd.Intn(2) == 0 {
+					ts = &wire.Ts{Secs: g.lastAct.Ts.Secs - 1, Nanos: 2000000000}
+				}
+				a = &wire.Action{Eid: g.lastAct.Eid, Name: g.lastAct.Name, Data: g.smallBytes(), Ts: ts}
+			}
 			g.lastAct = a
 			r.Act = a
 		}
@@ -656,6 +665,14 @@ func (g *Gen) pickConcurrent(k int) []int {
 			return chosen
 		}
 	}
+	// one block in six (of those of three) is about an entity that is being created: one member adds an entity, another
+	// sets an action on the id it is about to get, a third asks for the deletion of that id - refused whatever the
+	// order, and it must not take with it what was attached in the meantime (F46)
+	if k >= 3 && g.rnd.Intn(6) == 0 {
+		if chosen := g.attachToFreshEntity(bySession); chosen != nil {
+			return chosen
+		}
+	}
 	// one block in six has two or three members write the same item at once: the same action of one entity with
 	// timestamps around each other, the same component added, updated and deleted
 	if g.rnd.Intn(6) == 0 {
@@ -830,6 +847,33 @@ func (g *Gen) attachAgainstRemoval(k int, bySession map[int][]int, outsiders []i
 		}
 		if framed {
 			g.w.Tick(sid)
+		}
+		return chosen
+	}
+	return nil
+}
+
+// attachToFreshEntity builds a block of three around the entity id a session will issue next.
+func (g *Gen) attachToFreshEntity(bySession map[int][]int) []int {
+	kn := g.w.know
+	for _, sid := range sortedKeys(kn.sids) {
+		members := bySession[sid]
+		if len(members) < 3 {
+			continue
+		}
+		next := uint32(kn.maxEid[sid] + 1)
+		m := append([]int(nil), members...)
+		g.rnd.Shuffle(len(m), func(i, j int) { m[i], m[j] = m[j], m[i] })
+		add := g.RequestOf(m[0], "entityAdd")
+		act := g.RequestOf(m[1], "action")
+		act.Act = &wire.Action{Eid: next, Name: g.name(), Data: g.smallBytes(), Ts: &wire.Ts{Secs: secsPool[g.rnd.Intn(len(secsPool))]}}
+		del := g.RequestOf(m[2], "entityDelete")
+		del.N1 = next
+		chosen := []int{m[0], m[1], m[2]}
+		plan := map[int]*wire.Req{m[0]: add, m[1]: act, m[2]: del}
+		sortInts(chosen)
+		for _, c := range chosen {
+			g.w.Recv(c, plan[c])
 		}
 		return chosen
 	}
